@@ -105,7 +105,10 @@ class C09(Check):
         n = 1500 if tier == 'quick' else 40000
         from cases import builders_gen as BG
         from props import C07 as P7
-        return out + [gen_case(rng) for _ in range(n)] + [BG.gen(rng, P7.plain_tree) for _ in range(n // 2)]
+        # ONE session shared by several threads whose first capability-gated calls start at the same instant, against a server that also
+        # advertises a few hundred YANG module capabilities (the decision may not depend on which thread asks first)
+        shared = [{'kind': 'shared', 'threads': 2 + i % 3, 'modules': [50, 400, 1500][i % 3], 'b11': i % 2 == 0, 'trial': i} for i in range(24 if tier == 'quick' else 400)]
+        return out + [gen_case(rng) for _ in range(n)] + [BG.gen(rng, P7.plain_tree) for _ in range(n // 2)] + shared
 
     def search(self, tier, rng, broken):
         return [gen_case(rng) for _ in range(20000)]
@@ -120,6 +123,8 @@ class C09(Check):
             return {k: r.get(k) for k in ('op', 'profile', 'shape', 'args', 'capsMode', 'outcome', 'nsent', 'asserted', 'probedMinus', 'outsider',
                                           'rootNs', 'rootName', 'hasMsgId', 'nOps', 'opNs', 'opName', 'params', 'sentinels', 'enumLeaves')}
         from impl.rpcstub import make_manager
+        if case['kind'] == 'shared':
+            return self.run_shared(case)
         op, kw, _ = CALLS[case['call']]
         m, s, dh = make_manager(profile=case['profile'], server_caps=case['uris'], raise_mode=0,
                                 responder=lambda req, mid: '<rpc-reply message-id="%s" xmlns="urn:ietf:params:xml:ns:netconf:base:1.0"><ok/></rpc-reply>' % mid)
@@ -131,7 +136,43 @@ class C09(Check):
             out = 'missing' if n == 'MissingCapabilityError' else ('withdefaults' if n == 'WithDefaultsError' else 'exc:' + n)
         return {'out': out, 'nsent': len(s.sent)}
 
+    def run_shared(self, case):
+        import sys
+        import threading
+        from impl.rpcstub import make_manager
+        from gen.optable import ALL_CAPS
+        uris = [c for c in ALL_CAPS if case['b11'] or not c.endswith('base:1.1')]
+        uris = ['http://example.com/yang/m%d?module=m%d&revision=2020-01-%02d' % (i, i, 1 + i % 28) for i in range(case['modules'])] + uris
+        ok = '<rpc-reply message-id="%s" xmlns="urn:ietf:params:xml:ns:netconf:base:1.0"><ok/></rpc-reply>'
+        m, s, dh = make_manager(server_caps=uris, raise_mode=0, responder=lambda req, mid: ok % mid)
+        calls = [lambda: m.commit(), lambda: m.validate(source='candidate'), lambda: m.discard_changes(),
+                 lambda: m.get_config(source='ftp://h/f'), lambda: m.commit(confirmed=True)]
+        n = case['threads']
+        bar = threading.Barrier(n)
+        outs = [None] * n
+
+        def work(i):
+            try:
+                bar.wait(2)
+                calls[(i + case['trial']) % len(calls)]()
+                outs[i] = 'ok'
+            except Exception as e:
+                outs[i] = type(e).__name__ + ': ' + str(e)[:60]
+        old = sys.getswitchinterval()
+        sys.setswitchinterval(1e-6)
+        try:
+            ths = [threading.Thread(target=work, args=(i,), daemon=True) for i in range(n)]
+            for t in ths:
+                t.start()
+            for t in ths:
+                t.join(10)
+        finally:
+            sys.setswitchinterval(old)
+        return {'outs': outs, 'nsent': len(s.sent)}
+
     def model_lines(self, case):
+        if case.get('kind') == 'shared':
+            return []
         if case.get('kind') == 'build':
             from cases import builders_gen as BG
             return [BG.model_line(case)]
@@ -149,7 +190,7 @@ class C09(Check):
         if case.get('kind') == 'build':
             from cases import builders_gen as BG
             return BG.model_obs(outs[0])
-        if case['kind'] == 'row':
+        if case['kind'] in ('row', 'shared'):
             return None
         res = 'ok'
         for o in outs:
@@ -169,6 +210,12 @@ class C09(Check):
         return None if io == mo else 'impl=%r model=%r' % (io, mo)
 
     def oracle(self, case, io):
+        if case.get('kind') == 'shared':
+            bad = [o for o in io['outs'] if o != 'ok']
+            if bad or io['nsent'] != case['threads']:
+                return ('C09:shared-session-wrong-refusal', '%d threads made their first capability-gated call on one session at the same instant; the server '
+                        'advertised everything needed, yet: %s (%d requests sent)' % (case['threads'], bad[:2], io['nsent']))
+            return None
         if case.get('kind') == 'build':
             from cases import builders_gen as BG
             return BG.oracle(case, io, 'C09')
@@ -206,6 +253,8 @@ class C09(Check):
         return None
 
     def nontrivial(self, case, io):
+        if case.get('kind') == 'shared':
+            return True
         if case.get('kind') == 'build':
             from cases import builders_gen as BG
             return bool(BG.required(case))
